@@ -237,6 +237,32 @@ partial def loop (h : IO.FS.Stream) (s : St) : IO Unit := do
     | ["aggin", l] =>
       for o in handleAggIn s (arg l) do IO.println o
       loop h s
+    -- changes applied to the running table (history streams)
+    | ["addrw", old, new, not, mx] =>
+      let max : Option Nat := if mx.startsWith "-" then none else some mx.toNat!
+      IO.println "op ok"
+      loop h { s with rws := s.rws ++ [mkRewriter (arg old) (arg new) (arg not) max] }
+    | ["delrw", i] =>
+      if i.toNat! < s.rws.length then IO.println "op ok"; loop h { s with rws := s.rws.eraseIdx i.toNat! }
+      else IO.println "op err"; loop h s
+    | ["delbl", i] =>
+      if i.toNat! < s.bl.length then IO.println "op ok"; loop h { s with bl := s.bl.eraseIdx i.toNat! }
+      else IO.println "op err"; loop h s
+    | "addbl" :: f => IO.println "op ok"; loop h { s with bl := s.bl ++ [mkMatcher f] }
+    | "modroute" :: ri :: f =>
+      match s.routes[ri.toNat!]? with
+      | some r =>
+        if r.kind == "cap" then IO.println "op skip"; loop h s
+        else IO.println "op ok"; loop h { s with routes := s.routes.set ri.toNat! { r with r := { r.r with matcher := mkMatcher f } } }
+      | none => IO.println "op skip"; loop h s
+    | "moddest" :: ri :: di :: f =>
+      match s.routes[ri.toNat!]? with
+      | some r =>
+        if r.kind == "cap" then IO.println "op skip"; loop h s
+        else if di.toNat! < r.r.dests.length then
+          IO.println "op ok"; loop h { s with routes := s.routes.set ri.toNat! { r with r := { r.r with dests := r.r.dests.set di.toNat! (mkMatcher f) } } }
+        else IO.println "op err"; loop h s
+      | none => IO.println "op skip"; loop h s
     | ["park"] => loop h s
     | ["unpark"] => loop h s
     | ["pump"] =>
